@@ -36,9 +36,26 @@ def tag_loop_template(loop, rec, tags_attr, var=None, handle=None):
     if it not in (base, base + ".keys()", base + ".items()", f"list({base})", f"list({base}.keys())", f"sorted({base})", f"sorted({base}.keys())", f"reversed({base})", f"reversed(list({base}.keys()))"):
         return None
     parts = []
-    for st in loop.body:
+    body = list(loop.body)
+    # a filtered loop: `for k in tags: if T: <emit>` / `for k in tags: if T: continue; <emit>` — the filter is handed to the
+    # rules (as for a filtered comprehension) together with the element template
+    flt = None
+    if len(body) == 1 and isinstance(body[0], ast.If) and not body[0].orelse and not any(isinstance(x, (ast.If, ast.Continue, ast.Break, ast.Assign)) for b_ in body[0].body for x in ast.walk(b_)):
+        flt, body = body[0].test, list(body[0].body)
+    elif len(body) >= 2 and isinstance(body[0], ast.If) and not body[0].orelse and len(body[0].body) == 1 and isinstance(body[0].body[0], ast.Continue) and not any(isinstance(x, (ast.If, ast.Continue, ast.Break, ast.Assign)) for b_ in body[1:] for x in ast.walk(b_)):
+        t_ = body[0].test
+        if isinstance(t_, ast.Compare) and len(t_.ops) == 1 and type(t_.ops[0]) in (ast.Eq, ast.NotEq, ast.In, ast.NotIn):
+            flip = {ast.Eq: ast.NotEq, ast.NotEq: ast.Eq, ast.In: ast.NotIn, ast.NotIn: ast.In}[type(t_.ops[0])]
+            flt = ast.copy_location(ast.Compare(left=t_.left, ops=[flip()], comparators=t_.comparators), t_)
+        else:
+            flt = ast.copy_location(ast.UnaryOp(op=ast.Not(), operand=t_), t_)
+        body = body[1:]
+    for st in body:
         if isinstance(st, ast.AugAssign) and isinstance(st.op, ast.Add) and var and norm(st.target) == var:
             parts += tmpl.of_expr(st.value)
+        elif var and isinstance(st, ast.Expr) and isinstance(st.value, ast.Call) and isinstance(st.value.func, ast.Attribute) and st.value.func.attr == "append" and norm(st.value.func.value) == var and len(st.value.args) == 1 and len(body) == 1 and flt is None:
+            # `for k in tags: columns.append(<item>)`: one more column per field of a list that is joined later
+            return ("rep", tmpl.of_expr(st.value.args[0]), loop, "list-item")
         elif isinstance(st, ast.Expr):
             w = tmpl.is_write_call(st.value, {handle} if handle else None)
             if w:
@@ -53,6 +70,10 @@ def tag_loop_template(loop, rec, tags_attr, var=None, handle=None):
         elif isinstance(st, (ast.If, ast.Continue, ast.Assign)):
             # filtered / transformed tag loop: keep it opaque, rules decide what to do
             return ("rep", [("opaque", ast.Constant(value="filtered tag loop: " + norm(st)[:60]))], loop)
+    if flt is not None:
+        loop.gv_filters = [flt]
+        loop.gv_elt = tmpl._merge(parts)
+        return ("rep", [("opaque", ast.Constant(value="filtered tag loop: " + norm(flt)[:60]))], loop)
     return ("rep", tmpl._merge(parts), loop)
 
 
@@ -95,7 +116,13 @@ def fold(path, rec, tags_attr, var=None, handle=None, sink_call=None):
         if e.kind == "loop":
             r = tag_loop_template(dealias(e.node), rec, tags_attr, var, handle)
             if r is not None:
-                if var and b.env.get(var) is not None:
+                if len(r) == 4:
+                    cur_ = b.env.get(var)
+                    if cur_ and cur_[0][0] == "listvar":
+                        cur_[0][1].append(r[:3])
+                    elif cur_ is not None:
+                        b.env[var] = cur_ + [("opaque", ast.Constant(value=f"loop at line {e.node.lineno}"))]
+                elif var and b.env.get(var) is not None:
                     b.env[var] = b.env[var] + [r]
                 elif handle:
                     b.out = b.out + [r]
@@ -124,8 +151,8 @@ def fold(path, rec, tags_attr, var=None, handle=None, sink_call=None):
             emitted = b.env.get(norm(st.value))
         elif var and isinstance(st, ast.Return) and st.value is not None and b.env.get(var) and (derived & {x.id for x in ast.walk(st.value) if isinstance(x, ast.Name)}):
             emitted = tmpl._merge(tmpl.of_expr(dealias(st.value), b._env()))
-        if var and isinstance(st, ast.Expr) and isinstance(st.value, (ast.Yield,)) and st.value.value is not None and norm(st.value.value) == var:
-            emitted = b.env.get(var)
+        if var and isinstance(st, ast.Expr) and isinstance(st.value, (ast.Yield,)) and st.value.value is not None and norm(st.value.value) in derived:
+            emitted = b.env.get(norm(st.value.value))
     if handle:
         return b.out or None
     return emitted
@@ -196,6 +223,9 @@ def find_emitters(ctx, rule):
             from ..core import expand_table_dispatch, scalarise_counters
 
             f = fold_consts(scalarise_counters(expand_table_dispatch(f)))  # tallies kept in a Counter keyed through a literal table
+        from ..core import fuse_staged_loops
+
+        f = fuse_staged_loops(f)  # items staged in a list by one loop for the loop right after it: the single loop
         f = inline_access_aliases(desugar_dict_get(with_str_consts(f)))
         if any(isinstance(c, ast.Call) and isinstance(c.func, ast.Attribute) and c.func.attr == "join" and const_value(c.func.value, None) == "" for c in walk_own(f.node)):
             from ..core import string_builders
@@ -323,8 +353,8 @@ def templates_of(ctx, f, rec, n, tags_attr, rule):
                         pass
                     # the string argument mentioning var: the innermost BinOp/Name containing var directly as an argument of a call
                     cand = None
-                    for a in ast.walk(c):
-                        if isinstance(a, ast.Call):
+                    for a in ast.walk(c):  # (breadth first: the outermost such argument, e.g. `"\t".join(map(str, cols)) + "\n"` rather than `cols`)
+                        if isinstance(a, ast.Call) and cand is None:
                             for arg in a.args:
                                 if (names & {x.id for x in ast.walk(arg) if isinstance(x, ast.Name)}) and not isinstance(arg, ast.Call):
                                     cand = arg
